@@ -225,6 +225,10 @@ func c13Build(nonneg, undirected bool) *c13Graph {
 		}
 	} else {
 		n := verifParam("nnodes", 3)
+		if lo := verifParam("nnodeslo", 0); lo > 0 {
+			// degenerate orders (a single node, two nodes) as a case split
+			n = verifChoose("n", lo, n)
+		}
 		g = c13New(n)
 		if undirected {
 			mask := verifChoose("mask", 0, 1<<uint(n*(n-1)/2)-1)
